@@ -47,6 +47,12 @@ FIXED = {  # key -> (property, commit subject prefix)
   "C16:nnz-overflow-unflagged:_limit_ball": ("C16", "fix: njmax_nnz overflow is flagged"),
   "C16:nnz-overflow-unflagged:_limit_slide_hinge": ("C16", "fix: njmax_nnz overflow is flagged"),
   "C16:nnz-overflow-unflagged:_limit_tendon": ("C16", "fix: njmax_nnz overflow is flagged"),
+  "C31:get_data_into:rowless-contact-efc-address": ("C31", "fix: get_data_into skips contacts without constraint rows"),
+  "C31:get_data_into:efc-id-global-contact-index": ("C31", "fix: get_data_into reports contact rows' efc_id"),
+  "C31:put_data:efc-state-island-not-copied": ("C31", "fix: put_data copies efc_state"),
+  "C31:put_data:island-arrays-uninitialised": ("C31", "fix: put_data copies efc_state"),
+  "C27:_qderiv_actuator_passive_vel:ctrl-not-clamped": ("C27", "fix: actuator velocity derivative uses the clamped control"),
+  "C27:_qderiv_actuator_passive_vel:muscle-gain-velocity-ignored": ("C27", "fix: actuator velocity derivative includes the muscle gain"),
   "C04:capsule_capsule:in-gap-contact-dropped": ("C04", "fix: capsule-capsule keeps contacts inside the gap"),
   "C04:broadphase:explicit-pair-margin-ignored": ("C04", "fix: the broadphase filter does not reject explicit contact pairs"),
   "C18:filter:explicit-pair-margin-ignored": ("C18", "fix: the broadphase filter does not reject explicit contact pairs"),
